@@ -21,6 +21,12 @@
 //!            returns Ok, the armor de-armors to exactly the content
 //!       (a7) the public base64 layer used directly (Base64Decoder over a raw short-reading Read; Base64Decoder over
 //!            Base64Reader over a chunked BufRead; no / LF / CRLF line breaks; independent encoder): decoded == payload
+//!       (a2b)/(a3b) MessageBuilder::to_armored_writer (payloads 1,40,48,100,1000; checksum yes/no; from_bytes and from_reader):
+//!            reads back through Message::from_armor; every single sink fault (write call k / flush call k, once) => Err;
+//!            short-writing sinks => byte-identical armor
+//!       (a8) reader tolerance does not depend on the payload length: lengths 0,1,47..49,95..97,191..193,760..=770,1528..=1536,
+//!            armor with checksum, as written / 1 or 2 blank lines (LF, CRLF) between checksum line and END line / extra
+//!            newline after the END line; source whole and pieces 1, 64, 1024: Dearmor returns the payload at EVERY length
 //!  F2 message builder / reader (C01, C09): payload lengths x shapes {binary, utf8 text with CRLF content, zlib, SEIPDv1,
 //!     SEIPDv2 chunk 64 and 4096 (AES128/OCB), signed (v4 / v6 / v4+v6+v6 seeded Ed25519 keys) and combinations}
 //!     x source {from_bytes, from_reader over ChunkedReader 1 / 7 / 512 / whole, partial chunk size 512 and default}:
@@ -48,7 +54,7 @@
 //! usage: c09_bounded <N> [replay-case-hex]
 use pgp::armor::{self, BlockType, Dearmor, Headers};
 use pgp::composed::{
-    DecryptionOptions, KeyType, Message, MessageBuilder, SecretKeyParamsBuilder, SignedSecretKey, SubpacketConfig, TheRing,
+    ArmorOptions, DecryptionOptions, KeyType, Message, MessageBuilder, SecretKeyParamsBuilder, SignedSecretKey, SubpacketConfig, TheRing,
 };
 use pgp::crypto::aead::{AeadAlgorithm, ChunkSize};
 use pgp::crypto::hash::HashAlgorithm;
@@ -690,6 +696,132 @@ fn base64_family(ctx: &mut Ctx, n: usize) {
                         Ok(true)
                     });
                 }
+            }
+        }
+    }
+}
+
+/// (a2b) / (a3b): the armored output path of the message builder (its own copy of the armor body writer)
+fn armored_builder_family(ctx: &mut Ctx, n: usize) {
+    let mut lens = vec![1usize, 40, 48, 100, 1000];
+    if n >= 2 {
+        lens.extend([0, 47, 49, 96, 8192]);
+    }
+    for (li, &len) in lens.iter().enumerate() {
+        let payload = bin_payload(len);
+        for checksum in [true, false] {
+            for (vi, from_reader) in [false, true].into_iter().enumerate() {
+                let variant = (checksum as usize) * 2 + vi;
+                let base = format!("armored literal message payload len {len} ({}), checksum={checksum}", if from_reader { "from_reader pieces 7" } else { "from_bytes" });
+                let run = |sink: &mut FaultySink| -> pgp::errors::Result<()> {
+                    let rng = ChaCha20Rng::seed_from_u64(0x5eed);
+                    let opts = ArmorOptions { headers: None, include_checksum: checksum };
+                    if from_reader {
+                        let mut b = MessageBuilder::from_reader("", ChunkedReader::new(&payload, Sched::Fixed(7)));
+                        b.partial_chunk_size(512)?;
+                        b.to_armored_writer(rng, opts, sink)
+                    } else {
+                        MessageBuilder::from_bytes("", payload.clone()).to_armored_writer(rng, opts, sink)
+                    }
+                };
+                let mut reference: Option<Vec<u8>> = None;
+                let (mut nw, mut nf) = (0usize, 0usize);
+                ctx.case(cid(10, li, variant, 0, 0), &|| format!("{base}: to_armored_writer into a Vec-like sink, read back with Message::from_armor"), &mut || {
+                    let mut s = FaultySink::default();
+                    run(&mut s).map_err(|e| format!("(a1) to_armored_writer failed: {e}"))?;
+                    nw = s.writes;
+                    nf = s.flushes;
+                    let back = {
+                        let (mut msg, _) = Message::from_armor(&s.out[..]).map_err(|e| format!("(a1) the armored message does not parse: {e}"))?;
+                        msg.as_data_vec().map_err(|e| format!("(a1) the armored message does not read: {e}"))?
+                    };
+                    if back != payload {
+                        return Err(format!("(a1) the armored message reads back as {} octets, payload {} octets", back.len(), payload.len()));
+                    }
+                    reference = Some(s.out);
+                    Ok(true)
+                });
+                if nw == 0 {
+                    let mut s = FaultySink::default();
+                    let _ = catch_unwind(AssertUnwindSafe(|| run(&mut s).is_ok()));
+                    nw = s.writes;
+                    nf = s.flushes;
+                    if reference.is_none() {
+                        reference = Some(s.out);
+                    }
+                }
+                for k in 1..=nw + nf {
+                    let (fw, ff) = if k <= nw { (k, 0) } else { (0, k - nw) };
+                    ctx.case(cid(10, li, variant, 1, k), &|| format!("{base}: sink fault (ErrorKind::Other, once) at write call {fw} of {nw} / flush call {ff} of {nf} (0 = none)"), &mut || {
+                        let mut s = FaultySink { fail_write_at: fw, fail_flush_at: ff, ..Default::default() };
+                        let r = run(&mut s);
+                        if !s.fired {
+                            return Ok(false);
+                        }
+                        match r {
+                            Err(_) => Ok(true),
+                            Ok(()) => Err(format!("(a2b) the sink failed, but to_armored_writer returned Ok ({} of {} octets reached the sink)", s.out.len(), reference.as_ref().map(|r| r.len()).unwrap_or(0))),
+                        }
+                    });
+                }
+                for mw in [1usize, 7] {
+                    ctx.case(cid(10, li, variant, 2, mw), &|| format!("{base}: sink that takes at most {mw} octets per write"), &mut || {
+                        let mut s = FaultySink { max_write: mw, ..Default::default() };
+                        run(&mut s).map_err(|e| format!("(a3b) to_armored_writer failed on a short-writing sink: {e}"))?;
+                        match &reference {
+                            Some(r) if r != &s.out => Err(format!("(a3b) armor differs from the armor written in whole writes ({} vs {} octets)", s.out.len(), r.len())),
+                            _ => Ok(true),
+                        }
+                    });
+                }
+            }
+        }
+    }
+}
+
+/// (a8) the tolerance of the armor reader does not depend on the payload length
+fn tolerance_family(ctx: &mut Ctx, n: usize) {
+    let mut lens: Vec<usize> = vec![0, 1, 47, 48, 49, 95, 96, 97, 191, 192, 193];
+    lens.extend(760..=770);
+    lens.extend(1528..=1536);
+    if n >= 2 {
+        lens.extend(2290..=2304);
+        lens.extend([381, 382, 383, 3067, 3068, 3069]);
+    }
+    for (li, &len) in lens.iter().enumerate() {
+        let payload = bin_payload(len);
+        let mut armored = Vec::new();
+        let ok = catch_unwind(AssertUnwindSafe(|| armor::write(&Raw(payload.clone()), BlockType::Message, &mut armored, None, true).is_ok())).unwrap_or(false);
+        let text = String::from_utf8_lossy(&armored).to_string();
+        let end = text.rfind("-----END").unwrap_or(text.len());
+        let (head, foot) = text.split_at(end);
+        // (name, text); all of these are accepted at ordinary lengths on the reference tree
+        let variants: Vec<(&str, Vec<u8>)> = vec![
+            ("as written", text.clone().into_bytes()),
+            ("1 blank line (LF) between checksum line and END line", format!("{head}\n{foot}").into_bytes()),
+            ("2 blank lines (LF) between checksum line and END line", format!("{head}\n\n{foot}").into_bytes()),
+            ("CRLF, 1 blank line between checksum line and END line", to_crlf(format!("{head}\n{foot}").as_bytes())),
+            ("CRLF, 2 blank lines between checksum line and END line", to_crlf(format!("{head}\n\n{foot}").as_bytes())),
+            ("extra newline (LF) after the END line", format!("{text}\n").into_bytes()),
+            ("CRLF, extra newline after the END line", to_crlf(format!("{text}\n").as_bytes())),
+        ];
+        for (vi, (vname, t)) in variants.iter().enumerate() {
+            for (si, sched) in [Sched::Whole, Sched::Fixed(1), Sched::Fixed(64), Sched::Fixed(1024)].into_iter().enumerate() {
+                ctx.case(cid(11, li, vi, si, 0), &|| format!("armor with checksum, payload len {len}: {vname}; source pieces {}", sched.name()), &mut || {
+                    if !ok {
+                        return Err("(a8) armor::write failed".into());
+                    }
+                    let mut dearmor = Dearmor::new(ChunkedReader::new(t, sched.clone()));
+                    let mut out = Vec::new();
+                    dearmor.read_to_end(&mut out).map_err(|e| format!("(a8) this form is accepted at other payload lengths, here the dearmorer failed after {} octets: {e}", out.len()))?;
+                    if out != payload {
+                        return Err(format!("(a8) dearmor returned {} octets, payload {} octets", out.len(), payload.len()));
+                    }
+                    if dearmor.typ != Some(BlockType::Message) || dearmor.checksum.is_none() {
+                        return Err(format!("(a8) block type {:?} / checksum {:?}", dearmor.typ, dearmor.checksum));
+                    }
+                    Ok(true)
+                });
             }
         }
     }
@@ -1543,11 +1675,13 @@ fn main() {
     };
     armor_family(&mut ctx, n);
     base64_family(&mut ctx, n);
+    armored_builder_family(&mut ctx, n);
+    tolerance_family(&mut ctx, n);
     message_family(&mut ctx, n, &keys);
     sweeps(&mut ctx, n, &keys);
     println!(
-        "INFO cases per family: armor={} base64={} armor-retried-write={} builder={} reader={} reader-source-fault={} integrity={} seipdv1-sweep={} seipdv2-chunk-sizes={}",
-        ctx.per_family[1], ctx.per_family[9], ctx.per_family[6], ctx.per_family[2], ctx.per_family[3], ctx.per_family[4], ctx.per_family[5], ctx.per_family[7], ctx.per_family[8]
+        "INFO cases per family: armor={} base64={} armored-builder={} reader-tolerance={} armor-retried-write={} builder={} reader={} reader-source-fault={} integrity={} seipdv1-sweep={} seipdv2-chunk-sizes={}",
+        ctx.per_family[1], ctx.per_family[9], ctx.per_family[10], ctx.per_family[11], ctx.per_family[6], ctx.per_family[2], ctx.per_family[3], ctx.per_family[4], ctx.per_family[5], ctx.per_family[7], ctx.per_family[8]
     );
     println!("RESULT total={} nontrivial={} failures={}", ctx.total, ctx.nontrivial, ctx.failures);
 }
